@@ -1,6 +1,6 @@
 (* Driver.v — single entry point [run_line] evaluated by the extracted OCaml
    driver and, on a slice of every correspondence run, by vm_compute in Coq. *)
-From RK Require Import Base Proto DrvC13 DrvC12 DrvC14 DrvC19 DrvC17 DrvNQ DrvTtl DrvXsd DrvCanon DrvReg DrvRdfXml DrvJsonLd.
+From RK Require Import Base Proto DrvC13 DrvC12 DrvC14 DrvC19 DrvC17 DrvNQ DrvTtl DrvXsd DrvCanon DrvReg DrvRdfXml DrvJsonLd DrvRdfa.
 
 Definition run_line (l : bytes) : bytes :=
   match fields l with
@@ -23,6 +23,7 @@ Definition run_line (l : bytes) : bytes :=
       else if beq kind (s2b "reg") then run_reg args
       else if beq kind (s2b "rdfxml") then run_rdfxml args
       else if beq kind (s2b "jsonld") then run_jsonld args
+      else if beq kind (s2b "rdfa") then run_rdfa args
       else if beq kind (s2b "res") then run_res args
       else if beq kind (s2b "p5") then run_p5 args
       else if beq kind (s2b "rds") then run_rds args
